@@ -439,6 +439,10 @@ func checkProperty(p *Program, prop, tier string, timeoutS, workers int, start t
 func reportFailure(p *Program, prop, replayDir string, oc *oblOutcome, note string) string {
 	os.MkdirAll(replayDir, 0o755)
 	file := filepath.Join(replayDir, sanitize(oc.Obl.Name)+".json")
+	var ro *replayOutcome
+	if oc.Status == "failed" {
+		ro = tryReplay(p, oc, replayDir)
+	}
 	rec := map[string]interface{}{
 		"property":      prop,
 		"obligation":    oc.Obl.Name,
@@ -450,9 +454,13 @@ func reportFailure(p *Program, prop, replayDir string, oc *oblOutcome, note stri
 		"solver_status": oc.Res.Status,
 		"solver_output": truncate(oc.Res.Output, 8000),
 		"note":          note,
-		"replayed":      false,
+		"replayed":      ro != nil && ro.Replayed,
+		"replay":        ro,
 	}
 	b, _ := json.MarshalIndent(rec, "", " ")
 	os.WriteFile(file, b, 0o644)
+	if ro != nil && ro.Replayed {
+		return fmt.Sprintf("VIOLATION property=%s replay=%s obligation=%s status=%s replayed-on-real-code", prop, file, oc.Obl.Name, oc.Status)
+	}
 	return fmt.Sprintf("VIOLATION property=%s replay=%s obligation=%s status=%s no-failing-input-found", prop, file, oc.Obl.Name, oc.Status)
 }
